@@ -5,7 +5,7 @@
 From Coq Require Import String Ascii.
 From Coq Require Import Relations.Relation_Operators Relations.Operators_Properties.
 From Ruler Require Import Tactics Bytes AList RuleSyntax Parser TopoSort TopoSpec World Cmdlang Work Build Ops Inv
-     BuildSpec Ideal Sched BytesFacts InvFacts BuildFacts TopoSortFacts C01Script C01Hist C01Build C01Plan C01Facts
+     BuildSpec Ideal Sched BytesFacts InvFacts TableFrame BuildFacts TopoSortFacts C01Script C01Hist C01Build C01Plan C01Facts
      C04Facts SchedBasic SchedSerial SchedRule SchedInv.
 Local Open Scope nat_scope.
 
@@ -45,17 +45,55 @@ Section Final.
   Definition joined_ord (t' : table T) (st1 : sstate T) : join_state T :=
     fold_left (join_one T teqb hr) (flat_map unopt (ss_res st1)) (mk_js T (ss_world st1) t' [] []).
 
+  (* no work step reads the table file (repair of F6: the workers start from the world in which main has saved
+     what they leave of the table): a work step commutes with replacing that file *)
+  Definition ss_st (x : option (sf (table T))) (st : sstate T) : sstate T :=
+    mk_ss (set_tbl T (ss_world st) x) (ss_sent st) (ss_res st) (ss_commands st).
+
+  Lemma work_step_st x pack blobs hists st k :
+    work_step pack blobs hists (ss_st x st) k = ss_st x (work_step pack blobs hists st k).
+  Proof.
+    unfold Sched.work_step, Sched.has_worked. cbv zeta. cbn [ss_st ss_world ss_sent ss_res ss_commands].
+    destruct (nth k (ss_res st) None); [reflexivity|].
+    destruct (negb (forallb (fun k0 => match nth k0 (ss_res st) None with Some _ => true | None => false end)
+                            (deps pack k))); [reflexivity|].
+    destruct (Nat.ltb k (length (p_leaves pack))).
+    - rewrite handle_leaf_st. destruct (handle_leaf teqb hc (ss_world st) (nth k blobs [])); reflexivity.
+    - destruct (nth_error (p_nodes pack) (k - length (p_leaves pack))) as [n|]; [|reflexivity].
+      destruct (all_some _) as [tickets|]; [|reflexivity].
+      rewrite handle_rule_st.
+      destruct (handle_rule teqb hc (ss_world st) (nth k blobs []) (nth (k - length (p_leaves pack)) hists [])
+                            (hl tickets) (n_command n)) as [[res w'] s].
+      unfold lo. cbn [fst snd]. destruct res; reflexivity.
+  Qed.
+
+  Lemma work_steps_st x pack blobs hists ord : forall st,
+    fold_left (work_step pack blobs hists) ord (ss_st x st) = ss_st x (fold_left (work_step pack blobs hists) ord st).
+  Proof.
+    induction ord as [|k ord IH]; intro st; cbn [fold_left]; [reflexivity|].
+    rewrite work_step_st. apply IH.
+  Qed.
+
   Lemma build_ord_eq ord (w : world) rp goal w1 t pack hists blobs t' :
     init_dir T w = Ok (w1, t) -> get_nodes T w1 rp goal = Ok pack ->
     read_histories T teqb hr w1 (p_nodes pack) = Some hists ->
-    take_blobs hc t (worker_paths pack) = (blobs, t') ->
+    take_blobs T hc t (worker_paths pack) = (blobs, t') ->
     bo ord w rp goal =
     let st1 := fold_left (work_step pack blobs hists) ord (st_init T w1 pack) in
     let js := joined_ord t' st1 in
     mk_outcome (write_table T (js_world T js) (js_table T js))
                (match js_errors T js with [] => VOk | es => VWorkErrors es end)
                (ss_commands st1) (js_status T js).
-  Proof. intros Hi Hg Hh Htb. unfold build_ord. rewrite Hi, Hg, Hh, Htb. reflexivity. Qed.
+  Proof.
+    intros Hi Hg Hh Htb. unfold build_ord. rewrite Hi, Hg, Hh, Htb. cbv zeta.
+    change (mk_ss (write_table T w1 t') (repeat None (nworkers pack)) (repeat None (nworkers pack)) [])
+      with (ss_st (Some (SF_ok t')) (st_init T w1 pack)).
+    rewrite work_steps_st. unfold joined_ord. cbn [ss_st ss_world ss_sent ss_res ss_commands].
+    set (st1 := fold_left (work_step pack blobs hists) ord (st_init T w1 pack)).
+    change (mk_js T (set_tbl T (ss_world st1) (Some (SF_ok t'))) t' [] [])
+      with (js_st T (Some (SF_ok t')) (mk_js T (ss_world st1) t' [] [])).
+    rewrite (join_all_st T teqb hr). reflexivity.
+  Qed.
 
   Definition errs_of (st : sstate T) : list work_err :=
     flat_map (fun o : option (option rule * thread_result T) =>
@@ -78,12 +116,12 @@ Section Final.
   (* ---------- the hypotheses of the invariant, from those of the theorems ---------- *)
 
   Lemma take_blobs_ok pathss : forall (w : world) t blobs t',
-    clock_ok teqb w -> InvProofs.tbl_ok T teqb hc w t -> take_blobs hc t pathss = (blobs, t') ->
+    clock_ok teqb w -> InvProofs.tbl_ok T teqb hc w t -> take_blobs T hc t pathss = (blobs, t') ->
     (forall bl, In bl blobs -> blob_ok w bl) /\ InvProofs.tbl_ok T teqb hc w t'.
   Proof.
     induction pathss as [|ps rest IH]; intros w t blobs t' Hk Ht; cbn [take_blobs].
     - intro H. injection H as <- <-. split; [intros bl [] | exact Ht].
-    - destruct (take_blob T hc t ps) as [b1 t1] eqn:E1. destruct (take_blobs hc t1 rest) as [bs t2] eqn:E2.
+    - destruct (take_blob T hc t ps) as [b1 t1] eqn:E1. destruct (take_blobs T hc t1 rest) as [bs t2] eqn:E2.
       intro H. injection H as <- <-.
       destruct (InvProofs.take_blob_ok T teqb hc _ _ _ _ _ Hk Ht E1) as [Hb1 Ht1].
       destruct (IH _ _ _ _ Hk Ht1 E2) as [Hbs Ht2]. split; [|exact Ht2].
@@ -105,7 +143,7 @@ Section Final.
     Hypothesis Hg : get_nodes T w1 rp goal = Ok pack.
     Hypothesis Hdet : Forall det_node (p_nodes pack).
     Hypothesis Hh : read_histories T teqb hr w1 (p_nodes pack) = Some hists.
-    Hypothesis Htb : take_blobs hc tbl (worker_paths pack) = (blobs, t').
+    Hypothesis Htb : take_blobs T hc tbl (worker_paths pack) = (blobs, t').
 
     Lemma setup_inv1 : disk_inv w1.
     Proof.
@@ -195,7 +233,7 @@ Section Final.
     intros w rp goal w1 tbl pack ord1 ord2 Hinv Hhs Hi Hg Hdet Hv1 Hv2.
     destruct (read_histories T teqb hr w1 (p_nodes pack)) as [hists|] eqn:Hh.
     2:{ unfold build_ord. rewrite Hi, Hg, Hh. split; reflexivity. }
-    destruct (take_blobs hc tbl (worker_paths pack)) as [blobs t'] eqn:Htb.
+    destruct (take_blobs T hc tbl (worker_paths pack)) as [blobs t'] eqn:Htb.
     rewrite !(build_ord_eq _ _ _ _ _ _ _ _ _ _ Hi Hg Hh Htb). cbv zeta. cbn [o_verdict o_world].
     fold (final_st w1 pack hists blobs ord1). fold (final_st w1 pack hists blobs ord2).
     rewrite !joined_errors.
@@ -325,7 +363,7 @@ Section Final.
       read_histories T teqb hr w1 (p_nodes pack) = Some hists ->
       (o_verdict (bo ord w rp goal) = VOk <-> scratch_success w pack).
     Proof.
-      intro Hh. destruct (take_blobs hc tbl (worker_paths pack)) as [blobs t'] eqn:Htb.
+      intro Hh. destruct (take_blobs T hc tbl (worker_paths pack)) as [blobs t'] eqn:Htb.
       rewrite (build_ord_eq _ _ _ _ _ _ _ _ _ _ Hi Hg Hh Htb). cbv zeta. cbn [o_verdict].
       fold (final_st w1 pack hists blobs ord). rewrite joined_errors.
       pose proof (final_winv w w1 rp goal tbl pack hists blobs t' Hinv Hhs Hi Hg Hdet Hh Htb ord) as Hw.
@@ -382,7 +420,7 @@ Section Containment.
   (* the hypotheses of sched_failure_containment hold for the plan, the blobs and the initial state that
      build_ord uses *)
   Theorem sched_failure_containment_build : forall (w1 : world T) rp goal pack (t : table T) blobs t' hists ord,
-    get_nodes T w1 rp goal = Ok pack -> take_blobs hc t (worker_paths pack) = (blobs, t') ->
+    get_nodes T w1 rp goal = Ok pack -> take_blobs T hc t (worker_paths pack) = (blobs, t') ->
     valid_order pack ord ->
     let st1 := fold_left (work_step teqb hc hl pack blobs hists) ord (mk_ss w1 (repeat None (nworkers pack)) (repeat None (nworkers pack)) []) in
     forall k, k < nworkers pack ->
